@@ -1,0 +1,20 @@
+//go:build verif
+
+package block
+
+import "context"
+
+// Hooks for the C11 correspondence harness (/verif/harness/c11): what the two DA submission loops do to the
+// producer (submitter.go:194, 219), and the waiting-data count of the back-pressure test.
+
+func (m *Manager) VerifC11SetLastSubmittedHeaderHeight(ctx context.Context, h uint64) {
+	m.pendingHeaders.setLastSubmittedHeaderHeight(ctx, h)
+}
+
+func (m *Manager) VerifC11SetLastSubmittedDataHeight(ctx context.Context, h uint64) {
+	m.pendingData.setLastSubmittedDataHeight(ctx, h)
+}
+
+func (m *Manager) VerifC11NumWaitingData(ctx context.Context) uint64 {
+	return m.pendingData.numWaitingData(ctx)
+}
